@@ -110,6 +110,7 @@ impl ProtocolState {
         self.current_operation matches Some(id) ==> self.operations@.contains_key(id)
     }
 
+    //@lemma lemma_bound_ids_unique props=C06
     // lemma L-UNIQ (C06): under wf, two different operations never hold the same packet id,
     // and every bound id is non-zero
     pub proof fn lemma_bound_ids_unique(&self, a: u64, b: u64)
@@ -123,9 +124,10 @@ impl ProtocolState {
         assert(self.allocated_packet_ids@[p] == b);
     }
 
+    //@lemma lemma_no_leak props=C06
     // lemma L-NOLEAK (C06): no tracked operation => allocated ids is empty
     pub proof fn lemma_no_leak(&self)
-        requires self.wf(), self.operations@.len() == 0, self.operations@.dom().finite(),
+        requires self.wf(), self.operations@.len() == 0,
         ensures self.allocated_packet_ids@.dom() =~= Set::<u16>::empty(),
     {
         assert forall|p: u16| !self.allocated_packet_ids@.contains_key(p) by {
